@@ -321,7 +321,7 @@ def trim_check(R, inv):
 AR_KEYS = ['P/SHAmplitudeRatio', 'P/SVAmplitudeRatio', 'SH/SVAmplitudeRatio', 'P/SHRMSAmplitudeRatio', 'P/SVQAmplitudeRatio']
 
 
-def gen_front(rng):
+def gen_front(rng, integer=False):
     """an event data dictionary (several data types, each with its own station subset and order), location records listing a
     superset of the stations in another order, and a batch of tensors"""
     pool = ['ST%02d' % i for i in range(1, 13)]
@@ -330,7 +330,7 @@ def gen_front(rng):
     pol_kind = rng.choice(['pol', 'prob', 'none'])
     n_ar = rng.choice([0, 1, 2, 3]) if pol_kind != 'none' else rng.choice([1, 2, 3])
     K = rng.choice([0, 0, 1, 2, 3])
-    ang = dict((n, (rng.uniform(0, 360), rng.uniform(0, 180))) for n in names)
+    ang = dict((n, (float(rng.randint(0, 359)), float(rng.randint(0, 180))) if integer else (rng.uniform(0, 360), rng.uniform(0, 180))) for n in names)
     front = {'types': [], 'samples': [], 'weights': None, 'pol_kind': pol_kind}
     if pol_kind == 'pol':
         keys = rng.sample(['PPolarity', 'SHPolarity', 'SVPolarity'], rng.choice([1, 2, 3]))
@@ -360,7 +360,8 @@ def gen_front(rng):
         loc = list(names) + [n for n in pool[len(names):] if rng.random() < 0.3]
         rng.shuffle(loc)
         for _ in range(K):
-            front['samples'].append({'names': loc, 'az': [rng.uniform(0, 360) for _ in loc], 'toa': [rng.uniform(0, 180) for _ in loc]})
+            front['samples'].append({'names': loc, 'az': [float(rng.randint(0, 359)) if integer else rng.uniform(0, 360) for _ in loc],
+                                     'toa': [float(rng.randint(0, 180)) if integer else rng.uniform(0, 180) for _ in loc]})
         if K > 1 and rng.random() < 0.6:
             front['weights'] = [rng.choice([1.0, 2.0, 0.5, rng.uniform(0.1, 5)]) for _ in range(K)]
     M = rng.choice([1, 2, 3, 6, 7])
@@ -437,6 +438,7 @@ def front_expected(inv, front):
                 r1, r2 = rays(t, j, p1), rays(t, j, p2)
                 if r1 is None:
                     continue
+                case.setdefault('_rows_ar', []).append((key, t['names'][j]))
                 case.setdefault('a1', []).append([x.tolist() for x in r1])
                 case.setdefault('a2', []).append([x.tolist() for x in r2])
                 m = t['measured'][j]
@@ -451,6 +453,7 @@ def front_expected(inv, front):
                 w = t['mispick'][j][0] if 'mispick' in t else 0.0
                 anymis = anymis or w != 0
                 mis.append(w)
+                case.setdefault('_rows_prob' if 'Probability' in key else '_rows_pol', []).append((key, t['names'][j]))
                 if 'Probability' in key:
                     case.setdefault('a_prob', []).append([x.tolist() for x in r])
                     case.setdefault('pp', []).append(t['measured'][j][0])
@@ -495,6 +498,79 @@ def front_check(inv, pr, front):
     except Exception as ex:
         out = {'error': 'front end raised %s: %s' % (type(ex).__name__, ex)}
     return compare(case, atoms(pr, case), out), case
+
+
+def front_coq_expr(pr, front, case, probs):
+    """the composed model (Model/FrontEnd.v: builders feeding the forward task) executed at Q; atoms = the implementation's own
+    per-observation probabilities, keyed by data type, station, the station's integer angles in a record, tensor"""
+    at = atoms(pr, case)
+    fams = {'pol': [], 'prob': [], 'ar': []}
+    for t in sorted(front['types'], key=lambda t: t['key']):
+        fam = 'ar' if 'AmplitudeRatio' in t['key'] else ('prob' if 'Probability' in t['key'] else 'pol')
+        fams[fam].append(t)
+    tag = {}
+    for fam, base in (('pol', 0), ('prob', 100), ('ar', 200)):
+        for i, t in enumerate(fams[fam]):
+            tag[t['key']] = base + i
+    K, M = case['K'], case['M']
+    table = {}
+
+    def angles_of(t, name, k):
+        if front['samples']:
+            sm = front['samples'][k]
+            i = sm['names'].index(name)
+            return int(sm['az'][i]), int(sm['toa'][i])
+        j = t['names'].index(name)
+        return int(t['az'][j]), int(t['toa'][j])
+    bykey = dict((t['key'], t) for t in front['types'])
+    for fam, rk in (('pol', '_rows_pol'), ('prob', '_rows_prob'), ('ar', '_rows_ar')):
+        for s_, (key, name) in enumerate(case.get(rk, [])):
+            for k in range(K):
+                az, toa = angles_of(bykey[key], name, k)
+                for m in range(M):
+                    table[(tag[key], int(name[2:]), az, toa, m)] = at[fam][s_][k][m]
+    tbl = core.coq_list(['((%d%%nat, %s, %s, %s, %d%%nat), %s)' % (k[0], core.zlit(k[1]), core.zlit(k[2]), core.zlit(k[3]), k[4], q(v))
+                         for k, v in sorted(table.items())])
+
+    def fam_list(fam):
+        # with manual polarities present the probability family is ignored by the forward task, as in the model
+        return core.coq_list([core.coq_list(['(ob %s %s %s)' % (core.zlit(int(n[2:])), core.zlit(int(a)), core.zlit(int(o)))
+                                             for n, a, o in zip(t['names'], t['az'], t['toa'])]) for t in fams[fam]])
+    samples = core.coq_list([core.coq_list(['(mkSt %s %s %s)' % (core.zlit(int(n[2:])), core.zlit(int(a)), core.zlit(int(o)))
+                                            for n, a, o in zip(sm['names'], sm['az'], sm['toa'])]) for sm in front['samples']])
+    ws = core.coq_list([q(Fraction(w)) for w in case['weights']] if case['weights'] else [q(Fraction(1))] * K)
+    tol = q(Fraction(tolerance(case)).limit_denominator(10 ** 12) * 30)
+    return '(check_front %s %s %s %s %s %s %s %d%%nat %s)' % (tol, tbl, fam_list('pol'), fam_list('prob'), fam_list('ar'), samples, ws, M,
+                                                            core.coq_list([q(frac_exp(v)) for v in probs]))
+
+
+def front_correspondence(R, inv, pr):
+    """event dictionary -> Inversion._station_angles -> ForwardTask against Model/FrontEnd.v (composition of Model/Matrices.v and
+    Model/Forward.v) executed at Q inside Coq"""
+    exprs, metas = [], []
+    for i in range(R.n(40, 600)):
+        front = gen_front(R.rng, integer=True)
+        front['return_zero'] = True
+        case = front_expected(inv, front)
+        if not any(k in case for k in ('a_pol', 'a_prob', 'a1')) or underflow_cells(case, atoms(pr, case)):
+            continue
+        try:
+            out = forward_result(front_run(inv, front), case)
+        except Exception as ex:
+            R.signal('correspondence', {'why': 'front end raised %r' % ex, 'front': front})
+            continue
+        R.count(('front-model', i), nontrivial=bool(front['samples']))
+        if 'error' in out or len(out['rows']) != 1 or out['cols'] != list(range(case['M'])):
+            R.signal('correspondence', {'why': 'front end result not of the marginalised, unfiltered form', 'front': front, 'implementation': out})
+            continue
+        exprs.append(front_coq_expr(pr, front, case, out['rows'][0]))
+        metas.append(front)
+    failing, errors = core.run_cases('c01f', 'From Coq Require Import ZArith QArith.\nFrom MTV.Model Require Import Matrices Forward FrontEnd.', exprs, chunk=10)
+    for e in errors:
+        R.signal('correspondence-infrastructure', e)
+    R.cov['front_end_model_cases'] = len(exprs)
+    R.cov['front_end_model_disagreements'] = len(failing)
+    return [metas[j] for j in failing]
 
 
 def front_oracle(R, inv, pr):
@@ -559,6 +635,13 @@ def run(R):
     fb = front_oracle(R, inv, pr)
     if fb and bad is None:
         bad = fb
+    ffail = front_correspondence(R, inv, pr)
+    if ffail and bad is None:
+        why, _ = front_check(inv, pr, ffail[0])
+        if why:
+            bad = {'check': 'event data -> matrices -> forward task: ' + why, 'front': ffail[0]}
+        else:
+            R.signal('correspondence', {'why': 'front end differs from Model/FrontEnd.v executed at Q', 'front': ffail[0]})
     if bad:
         R.violation('forward task: %s' % bad['check'], bad)
     R.cov['rule'] = ('random ForwardTask configurations: manual polarities | polarity probabilities | none, 0-4 amplitude ratios, 1-4 location '
